@@ -108,6 +108,21 @@ def _apply(variant: dict, root: str) -> Optional[str]:
         if r.returncode != 0:
             return "patch does not apply: " + (r.stdout + r.stderr).strip().splitlines()[0][:120]
         return None
+    if variant.get("transform") and variant["transform"][0] == "unparse_package":
+        # behaviour-preserving: every module of the package is re-emitted by ast.unparse (comments, layout, line numbers,
+        # parenthesisation and string quoting all change; the AST does not)
+        import ast as _ast
+        for dirpath, _dirs, files in os.walk(os.path.join(root, "funsor")):
+            for fn in files:
+                if fn.endswith(".py"):
+                    path = os.path.join(dirpath, fn)
+                    with open(path, encoding="utf-8") as f:
+                        src = f.read()
+                    out = _ast.unparse(_ast.parse(src)) + "\n"
+                    compile(out, path, "exec")
+                    with open(path, "w", encoding="utf-8") as f:
+                        f.write(out)
+        return None
     if variant.get("transform"):
         kind, rel, qual = variant["transform"]
         path = os.path.join(root, rel)
